@@ -121,7 +121,7 @@ def c18(ck):
     ck.rule = ("every operation sequence over {PushPlain d, PushSandbox d, PushGlobal, Pop, SetGlobal k v, SetIndex k v} "
                "from every one of the 9 base maps up to the stated length is one TLC state and one replay record; "
                "non-trivial = contains at least one push and at least one of SetGlobal/SetIndex/Pop; records are distinct "
-               "because TLC states (base, history) are distinct")
+               "because TLC states (base, history) are distinct; LiquidFrames: every frame tree of <= 5 frames x 1 name (thorough 6 x 1 and 5 x 2) with every interleaving of construction, lookups, global and counter stores; hook traces of the replayed histories (quick: every k-th, thorough: all and the repository's own test suite)")
     ck.assumptions = [
         "values are scalars and one-key objects; paths have length 1..2 over {a,b} x {x,size,y}",
         "the harness observes only through the public Runtime trait (try_get, get, roots, get_index, registers)",
@@ -150,7 +150,7 @@ def c01(ck):
                "and parsed under 3 configurations; lexical / random: every sequence of <= 2 (3) of 40 lexical tokens inside each of 10 host "
                "tags, nesting towers of depth 1..32 (closed, unclosed, over-closed) for 8 block kinds, multi-byte text runs of 1..8 "
                "characters before quote-bearing valid and invalid elements on lines 1..3, random token soups and delete / duplicate / "
-               "transpose mutations of 14 well-formed templates; non-trivial = more than one element / not accepted")
+               "transpose mutations of 14 well-formed templates; non-trivial = more than one element / not accepted; arguments: every concatenation of <= 2 of 44 generic lexical pieces and <= 2 (3) pieces of the host's own vocabulary inside 15 host tags, verdict (and output where no filter is involved) derived by LiquidLex + LiquidArgs + LiquidInterp")
     ck.assumptions = ["hangs are detected by a 20 s per-batch watchdog in the worker pool, not proved absent",
                       "inside a comment, unbalanced block openers make the verdict unspecified (totality only), as the property says",
                       "the empty configuration is checked for totality only"]
@@ -186,7 +186,7 @@ def c03(ck):
                "combinations and 0..MaxPad inner spaces; two markups in a row; text-only templates; if / raw / comment blocks with all "
                "16 marker combinations x 4x4 outer texts x bodies (whitespace-edged text, things that look like markup, unterminated "
                "markup, trimming pseudo-tags, side-effecting markup, nested comment) followed by a side-effect probe; "
-               "non-trivial = contains markup")
+               "non-trivial = contains markup; raw / comment from text: every sequence of <= 4 (5) of 16 elements (raw / endraw with and without trim markers and arguments, comment / endcomment, block openers, invalid liquid, swallowed blanks) through LiquidParse")
     ck.assumptions = ["text never fuses with a neighbouring delimiter into a different delimiter (cores exclude '{')",
                       "whitespace = space, tab, CR, LF as the property states"]
     ck.replay_stage("templates", "MC_C03", "MC_C03_quick.cfg" if ck.tier == "quick" else "MC_C03_thorough.cfg",
@@ -208,7 +208,7 @@ def c04(ck):
     ck.rule = ("every program with at most N statement nodes over the statement alphabet {safe read, assign literal, assign copy, "
                "increment, decrement, include with argument, for, capture, if} on 2 (3) reused names x 3 caller data maps x 2 partial "
                "variants is one TLC behaviour of LiquidInterp and one replay record; non-trivial = contains a binding construct "
-               "and an output of a name; distinct by construction (TLC initial states)")
+               "and an output of a name; distinct by construction (TLC initial states); the scope-frame hook events of every render of the n3 stage (89 k renders) validated against LiquidFrames")
     ck.assumptions = ["ASCII names and values", "partials compiled eagerly (C19 covers the other policies)",
                       "outcome compared as output text or error-ness, not error message"]
     if ck.tier == "quick":
@@ -240,7 +240,7 @@ def c06(ck):
     ck.rule = ("one program per (operator, ordered pair of the 32-value pool) through variables and per scalar pair as literals; "
                "bare-value truthiness of every pool value (literal, variable, undefined); if/elsif chains of 1..4 arms x all truth "
                "assignments x else/no else; case/when with 1..3 arms over 7 value lists x comma/or x 4-6 targets; 11 and/or shapes "
-               "x all assignments incl. undefined names; every program is non-trivial (it evaluates a condition)")
+               "x all assignments incl. undefined names; every program is non-trivial (it evaluates a condition); templates from text: every sequence of <= 2 (3) of 45 elements and <= 4 (5) elements per construct family (if, for, case, capture) parsed by LiquidParse and run by LiquidInterp")
     ck.assumptions = ["multi-key objects are not ordered or printed (iteration order is unspecified)",
                       "floats in the pool are small dyadics"]
     if ck.tier == "quick":
@@ -257,7 +257,7 @@ def c07(ck):
                "integer-like keys, literal indices -4..3, indices through variables, through a nested path, undefined and non-scalar "
                "index expressions) from 4 roots on a nested datum; every index -7..6 into arrays of length 0..5 as literal, int "
                "variable, string variable and nested path; first/last/size on lengths 0..5; 105 literals through the AST printer and "
-               "193 integer/decimal literal spellings as raw source; non-trivial = path with at least one step, or any index/literal case")
+               "193 integer/decimal literal spellings as raw source; non-trivial = path with at least one step, or any index/literal case; from characters: every concatenation of <= 2 (3) generic pieces and <= 3 value pieces inside {{ }} and assign")
     ck.assumptions = ["ASCII keys and strings", "printing a multi-key object is unspecified (iteration order) and only checked to succeed",
                       "integer literal spellings are within the 64-bit range here; out-of-range spellings belong to C01"]
     if ck.tier == "quick":
@@ -329,7 +329,7 @@ def c20(ck):
                "check / read / compile / insert as separate steps inside the lock; implementation: N runs, each a fresh shared Parser "
                "(lazy store) and 7 shared Templates used by 2..16 barrier-released threads doing 3..7 random render/parse calls each "
                "with seeded start skews, yields and dwell times inside the store's critical section; one trace per run; every call is "
-               "non-trivial (its result is compared with the same call executed alone on a fresh parser)")
+               "non-trivial (its result is compared with the same call executed alone on a fresh parser); runs alternate the lazy and the on-demand store, include a partial that recurses through a data-chosen name, and write through dawdling sinks; thorough: TLAPS proof of the safety invariants for any number of threads")
     ck.assumptions = ["real-thread schedule coverage is statistical (seeded); interleavings are exhaustive in the model only",
                       "event order is the order of the recorder's mutex; Miss events are logged from inside the store's critical section",
                       "a deadlock is detected by a 30 s watchdog (missing Return events)"]
